@@ -114,6 +114,28 @@ func init() {
 					} else if stripVersionLine(gen) != stripVersionLine(prev) {
 						c.Violation(fmt.Sprintf("gen%d-differs", g), fmt.Sprintf("generation %d differs from generation %d: %s", g, g-1, firstDiff(stripVersionLine(prev), stripVersionLine(gen))), nil, nil)
 					}
+					if g == 1 {
+						// the Makefile's self-compile target writes over the checked-in file: same bytes as to a fresh path
+						ip := filepath.Join(w.Dir, "tree-inplace")
+						os.RemoveAll(ip)
+						if err := copyTree(repo, ip); err != nil {
+							panic(err)
+						}
+						// a checked-in file that is longer than what will be generated (long version line)
+						long := strings.Replace(string(checkedIn), "// gontainer version:", "// gontainer version: "+strings.Repeat("x", 300), 1)
+						os.WriteFile(filepath.Join(ip, "internal/gontainer/gontainer.go"), []byte(long), 0o644)
+						run := exec.Command(bin, "build", "-i", "internal/gontainer/gontainer.yaml", "-i", "internal/gontainer/gontainer_*.yaml", "-o", "internal/gontainer/gontainer.go")
+						run.Dir = ip
+						b, err := run.CombinedOutput()
+						c.Count("generations")
+						c.Count("evaluations_extra")
+						c.Distinct("nontrivial", "inplace")
+						got, _ := os.ReadFile(filepath.Join(ip, "internal/gontainer/gontainer.go"))
+						if err != nil || stripVersionLine(string(got)) != stripVersionLine(gen) {
+							c.Violation("inplace-differs", fmt.Sprintf("regenerating over the existing internal/gontainer/gontainer.go (as `make self-compile` does) does not give the bytes written to a fresh path: %v %s\n%s", err, firstDiff(stripVersionLine(gen), stripVersionLine(string(got))), b), nil, nil)
+						}
+						os.RemoveAll(ip)
+					}
 					prev = gen
 					// next tree: scratch copy with the regenerated file
 					next := filepath.Join(w.Dir, fmt.Sprintf("tree%d", g))
